@@ -30,6 +30,22 @@ CLAIMED = {
          "held on the 21 x 15 cases executed except for the listed known findings (go statements on function values and interface values): every entry function without a recovering defer whose panic killed a native run is reported with the go statement among its creators, also with -exclude of another package.",
          "the crash trace format of the Go runtime; obligation only when the entry syntactically defers no function that calls recover (validated by the native outcome)",
          "DESIGN.md §7 C19"),
+ "C04": ("runtime monitoring of the tool as a black box: candidate functions x call forms x specification patterns; identification is observed through probe flows in the tool's reports and compared with Go's regexp on the identity of the function actually called",
+         "held on the cross product explored except for the listed known findings (invoke calls matched on the interface's package, function-value/method-value/method-expression calls with context patterns, source specs with receiver patterns): a call is identified as source/sink IFF the unanchored regular expressions match the called function's package path, name, receiver type and enclosing function. Identifier kinds for types, fields, stores and channel receives are not covered.",
+         "reference model = Go's regexp package on run-time callee identity (each call site has a single possible callee by construction); invoke x receiver patterns are not asserted (ambiguous in the statement)",
+         "DESIGN.md §7 C04"),
+ "C08": ("runtime monitoring of the analyzer: the real intra-procedural analysis is run per function through its public entry point; an invariant monitor compares every summary with an independent SSA def-use reachability relation and checks the final abstract state for closure under CFG propagation",
+         "held on every function summarised in the run (generated programs, repository test programs and, in the thorough tier, every loaded standard-library function under the size cap): each origin->use pair of the reference relation is an edge of the summary, and marks attached after an instruction are attached after each successor.",
+         "the reference relation is an independent ~150-line walker over exactly the instruction kinds the property lists; FlowInformation is read through the public post-block callback",
+         "DESIGN.md §7 C08"),
+ "C09": ("runtime monitoring: (1) every resolvable summary-table entry is instantiated with the tool's own constructor and its in-range positions checked against the graph; (2) one-call programs with marker-carrying arguments are executed natively against the real standard library and the observed argument->result / argument->argument flows must be reported",
+         "stage 1 is exhaustive over the table entries that resolve on this toolchain (324); stage 2 holds on the entries whose argument types the value synthesiser can build (about a third, in light-weight packages) x every marker-carrying argument position. Entries that cannot be invoked with synthesised values are covered by stage 1 only.",
+         "marker containment after the call implies a flow through the real function; integer-carried data is not tracked; heavy packages (net/http, crypto/x509 ...) are not executed",
+         "DESIGN.md §7 C09"),
+ "C11": ("runtime monitoring: random heap-shape programs with an address probe after every step, executed natively with GC off under all inputs; observed same-address pairs and (value, allocation site) pairs are compared with MayAlias / PointsTo labels of the analyzer state",
+         "held on all alias pairs observed (thousands per run): every two probed values of the same type that referred to the same object have intersecting points-to sets, and the allocation site of the object a value referred to is among the value's labels.",
+         "addresses identify objects because GC is disabled; only same-type pairs; state built exactly as the tools build it; no reflection/unsafe in the programs",
+         "DESIGN.md §7 C11"),
 }
 PENDING_REASON = "check not built yet at this commit (work in progress; see DESIGN.md §7 for the planned runtime monitor)"
 
